@@ -1363,6 +1363,8 @@ struct SrcCfg {
 	big: bool,
 	/// prepare a same-shape fork and segments for another archive header
 	hostile_material: bool,
+	/// big world whose archive header commits to EXACTLY 1024 outputs (the last bitmap chunk is full)
+	boundary: bool,
 }
 
 impl SrcCfg {
@@ -1448,9 +1450,18 @@ fn build_world(seed: u64, n_blocks: u64, style: u64) -> WorldB {
 
 /// Big world: block i >= 5 spends the coinbase of block i-4 into 9 outputs, block i >= 12
 /// also spends two of the outputs of block i-6; all proofs are built in parallel.
-fn build_big_world(seed: u64, n_blocks: u64) -> WorldB {
+fn build_big_world(seed: u64, n_blocks: u64, boundary: bool) -> WorldB {
 	use std::sync::atomic::{AtomicU64, Ordering};
-	const OUTS: usize = 9;
+	// outputs of the big transaction of block i
+	let outs_of = move |i: u64| -> usize {
+		if !boundary {
+			9
+		} else if i < 5 + 72 {
+			8
+		} else {
+			7
+		}
+	};
 	let mut h = Hist::new(seed, false);
 	let w = h.world.clone();
 	let reward = grin_core::consensus::REWARD;
@@ -1462,9 +1473,10 @@ fn build_big_world(seed: u64, n_blocks: u64) -> WorldB {
 	// value of output j of the big transaction of block i
 	let out_val = |i: u64, j: usize| -> u64 {
 		let total = cb_val(i - 4) - fee1(i);
-		let each = total / OUTS as u64;
-		if j + 1 == OUTS {
-			total - each * (OUTS as u64 - 1)
+		let n = outs_of(i);
+		let each = total / n as u64;
+		if j + 1 == n {
+			total - each * (n as u64 - 1)
 		} else {
 			each
 		}
@@ -1485,7 +1497,7 @@ fn build_big_world(seed: u64, n_blocks: u64) -> WorldB {
 					let mut txs = vec![];
 					if i >= 5 {
 						let inp = w.coin(cb_val(i - 4), &cb_key(i - 4), true);
-						let outs: Vec<(u64, grin_keychain::Identifier)> = (0..OUTS).map(|j| (out_val(i, j), out_key(i, j))).collect();
+						let outs: Vec<(u64, grin_keychain::Identifier)> = (0..outs_of(i)).map(|j| (out_val(i, j), out_key(i, j))).collect();
 						txs.push(w.tx(&mut p, &[inp], &outs, KernelFeatures::Plain { fee: fee_fields(fee1(i)) }).0);
 					}
 					if i >= 12 {
@@ -1514,7 +1526,7 @@ fn build_big_world(seed: u64, n_blocks: u64) -> WorldB {
 		let cbc = w.coin(cb_val(i), &cb_key(i), true);
 		h.coins.insert(cbc.commit.0.to_vec(), cbc);
 		if i >= 5 {
-			for j in 0..OUTS {
+			for j in 0..outs_of(i) {
 				let c = w.coin(out_val(i, j), &out_key(i, j), false);
 				h.coins.insert(c.commit.0.to_vec(), c);
 			}
@@ -1650,7 +1662,7 @@ fn chunks_of(idx: &[u64]) -> Vec<BitmapChunk> {
 fn build_source(run: &Run, sc: &Scratch, cfg: &SrcCfg) -> Result<Source, String> {
 	let t0 = Instant::now();
 	let wseed = run.seed ^ (cfg.shard as u64 + 1).wrapping_mul(0xC16_0001);
-	let mut w = if cfg.big { build_big_world(wseed, cfg.n_blocks) } else { build_world(wseed, cfg.n_blocks, cfg.shard as u64) };
+	let mut w = if cfg.big { build_big_world(wseed, cfg.n_blocks, cfg.boundary) } else { build_world(wseed, cfg.n_blocks, cfg.shard as u64) };
 	run.count("b.world_build_ms", t0.elapsed().as_millis() as u64);
 	let a = cfg.archive_height();
 	let dir = sc.sub(&format!("src{}/db", cfg.shard));
@@ -1708,6 +1720,12 @@ fn build_source(run: &Run, sc: &Scratch, cfg: &SrcCfg) -> Result<Source, String>
 		return Err(format!("source at the tip differs from the reference ledger: {}", d));
 	}
 	let st_a = w.h.state(&w.hashes[a as usize]);
+	if cfg.boundary {
+		run.set_max("max_boundary_source_outputs_at_archive_header", st_a.outs.len() as u64);
+		if st_a.outs.len() != 1024 {
+			return Err(format!("boundary world: {} outputs at the archive header instead of exactly 1024", st_a.outs.len()));
+		}
+	}
 	let uidx = st_a.unspent_idx();
 	let bm_ref: Bitmap = uidx.iter().map(|&i| i as u32).collect();
 	let any_spent = (uidx.len() as u64) < st_a.outs.len() as u64;
@@ -2595,6 +2613,9 @@ fn segment_sync(run: &Run, sc: &Scratch, src: &Source, set: &SegSet, pool: &Host
 			run.count("c.hostile_syncs_ending_right", 1);
 		} else {
 			run.count("b.full_state_syncs_from_segments", 1);
+			if src.cfg.boundary {
+				run.count("b.full_state_syncs_with_exactly_1024_outputs_at_the_archive_header", 1);
+			}
 			if set.output.len() >= 2 && set.rproof.len() >= 2 && set.kernel.len() >= 2 {
 				run.count("b.full_state_syncs_multi_segment", 1);
 			}
@@ -3003,18 +3024,22 @@ fn src_cfg(run: &Run, shard: usize, san: bool) -> SrcCfg {
 	let hsel = [(0u8, 2u8, 2u8, 2u8), (0, 3, 2, 4), (0, 2, 4, 3), (0, 4, 3, 2), (0, 3, 3, 3), (0, 2, 3, 2)];
 	let hts = hsel[(shard + (run.seed % 6) as usize) % hsel.len()];
 	if san {
-		return SrcCfg { shard, n_blocks: 45, compact_at: None, hts, big: false, hostile_material: false };
+		return SrcCfg { shard, n_blocks: 45, compact_at: None, hts, big: false, hostile_material: false, boundary: false };
 	}
 	let compacted = shard % 13 == 0 || (thorough && shard % 13 == 1);
 	let big = thorough && shard == 3;
 	if big {
 		// archive header at 110: 1 + 110 + 9*106 + 99 = 1164 outputs (two bitmap chunks)
-		return SrcCfg { shard, n_blocks: 131, compact_at: None, hts: (0, 6, 5, 6), big: true, hostile_material: false };
+		return SrcCfg { shard, n_blocks: 131, compact_at: None, hts: (0, 6, 5, 6), big: true, hostile_material: false, boundary: false };
+	}
+	if shard == 5 {
+		// archive header at 110: 1 + 110 + (72*8 + 34*7) + 99 = 1024 outputs exactly
+		return SrcCfg { shard, n_blocks: 131, compact_at: None, hts: (0, 6, 5, 6), big: true, hostile_material: false, boundary: true };
 	}
 	if compacted {
 		let hc = 82 + p.below(8);
 		let n = hc + 9 + p.below(6);
-		return SrcCfg { shard, n_blocks: n, compact_at: Some(hc), hts, big: false, hostile_material: shard % 2 == 1 };
+		return SrcCfg { shard, n_blocks: n, compact_at: Some(hc), hts, big: false, hostile_material: shard % 2 == 1, boundary: false };
 	}
 	SrcCfg {
 		shard,
@@ -3023,6 +3048,7 @@ fn src_cfg(run: &Run, shard: usize, san: bool) -> SrcCfg {
 		hts,
 		big: false,
 		hostile_material: shard % 2 == 1,
+		boundary: false,
 	}
 }
 
@@ -3193,7 +3219,7 @@ fn chain_source(run: &Run, shard: usize, san: bool, budget: f64) {
 		if n >= 3 && left < est * 1.3 {
 			break;
 		}
-		if n >= run.tier.pick(10, 16) || (san && n >= 3) || (cfg.big && n >= 4) {
+		if n >= run.tier.pick(10, 16) || (san && n >= 3) || (cfg.big && n >= 4) || (cfg.boundary && n >= run.tier.pick(2, 4)) {
 			break;
 		}
 		let t = Instant::now();
@@ -3321,6 +3347,11 @@ fn main() {
 		run.require("b.sources.compacted", run.counter("b.sources.compacted"), q(1, 2));
 		run.require("c.hostile_pieces_refused", run.counter("c.hostile_pieces_refused"), q(100, 600));
 		run.require("c.hostile_syncs_ending_right", run.counter("c.hostile_syncs_ending_right"), q(2, 10));
+		run.require(
+			"state sync from segments for an archive header with exactly 1024 outputs (full last bitmap chunk)",
+			run.counter("b.full_state_syncs_with_exactly_1024_outputs_at_the_archive_header"),
+			1,
+		);
 		let k = "c.zip_hostile_refused.unspent_leaf_relabelled_with_matching_leaf_hash_sibling_spent";
 		run.require(k, run.counter(k), q(2, 10));
 	}
